@@ -577,6 +577,11 @@ class RequestHandler(BaseProtocol, Generic[_Request]):
         self._close = True
         if self._waiter:
             self._waiter.cancel()
+            # Idle between requests: nothing is left to wait for, so close
+            # now instead of holding the connection open until the shutdown
+            # sequence (or the keep-alive timer) gets around to it.
+            if self.transport is not None:
+                self.transport.close()
 
     def force_close(self) -> None:
         """Forcefully close connection."""
